@@ -28,7 +28,8 @@ def scenario(rng, kind, tier):
     N = int(rng.integers(max(6, 2 * K), 24))
     wcas = INT_WCA if integ else [w for w in STD_WCA if nlead >= 1 or (w not in [(-3,), (-3, -1), (-3, -2, -1)])]
     wca = wcas[int(rng.integers(len(wcas)))]
-    sc = dict(kind=kind, L=L, K=K, D=D, N=N, wca=wca, regime=['regular', 'separable', 'degenerate', 'scaled'][int(rng.integers(4))],
+    wca_type = 'int' if isinstance(wca, int) else ('list' if isinstance(wca, list) else 'tuple')
+    sc = dict(kind=kind, L=L, K=K, D=D, N=N, wca=wca, wca_type=wca_type, regime=['regular', 'separable', 'degenerate', 'scaled'][int(rng.integers(4))],
               init=['soft', 'hard'][int(rng.integers(2))], iterations=int(rng.integers(1, 5)),
               saliency=bool(rng.integers(2)), seed=int(rng.integers(1 << 30)), opts={},
               dtype='float64' if rng.random() < 0.8 else 'float32')
@@ -59,6 +60,7 @@ def scenario(rng, kind, tier):
         sc['E'] = int(rng.integers(2, 5))
     if sc.get('aligner'):
         sc['wca'] = [(-3,), (-3, -1), -3][int(rng.integers(3))]
+        sc['wca_type'] = 'int' if isinstance(sc['wca'], int) else 'tuple'
         sc['L'] = [int(2 * rng.integers(1, 4) + 1)]     # odd number of bins
     return sc
 
@@ -216,6 +218,15 @@ def _aligner_for(F, rng):
                                     segment_shift=int(rng.integers(1, width + 1)), main_iterations=2, sub_iterations=1)
 
 
+def wca_arg(case):
+    """weight_constant_axis exactly as the scenario specifies it (JSON does not keep tuple vs list)"""
+    wca = case['wca']
+    t = case.get('wca_type', 'int' if isinstance(wca, int) else 'tuple')
+    if t == 'int':
+        return int(wca)
+    return list(wca) if t == 'list' else tuple(wca)
+
+
 def model_case(case, want=('predict', 'fit_predict', 'estep')):
     """Fit one scenario; returns (records, context).  context has model, data, init, opts for other drivers."""
     rng = np.random.default_rng(case['seed'])
@@ -224,9 +235,7 @@ def model_case(case, want=('predict', 'fit_predict', 'estep')):
     init = ml.make_init(rng, L, K, N, style=case['init'])
     opts = dict(case['opts'])
     wca = case['wca']
-    opts['weight_constant_axis'] = tuple(wca) if isinstance(wca, (list, tuple)) and not isinstance(wca, list) else wca
-    if isinstance(wca, list):
-        opts['weight_constant_axis'] = list(wca)
+    opts['weight_constant_axis'] = wca_arg(case)
     sam = None
     if case.get('sam'):
         sam = rng.random((*L, K, N)) < 0.8
